@@ -31,3 +31,14 @@ claim('C13', 'other',
       'raw state (self._atoms/_bonds, aliases, objects drawn from them), primitives calc_labels/calc_implicit/'
       'fix_stereo/flush_cache taken at their documented effect',
       'DESIGN.md 3.B, 4/C13')
+claim('C09', 'other',
+      'bit-provenance abstract interpretation of the two mask encoders (affine shift forms with path restrictions), '
+      'literal struct/format comparison across isomorphism.py and _isomorphism.pyx, attribute-set comparison with the '
+      '__eq__ ladders',
+      'decides layout agreement: for every attribute value (118 elements, charges, isotope offsets, H, neighbours, '
+      'heteroatoms, hybridisation, ring sizes) both encoders use the same word and bit; fields are disjoint; every '
+      'wildcard constant equals the OR over its domain; AnyElement/AnyMetal masks equal the element sets computed '
+      'from the tables; struct formats, zip order and .pyx packed structs correspond; both paths consult the same '
+      'attributes; fallbacks select the reference matcher. It does NOT decide equivalence of the two search loops.',
+      'trusts: attribute domains listed in evidence.assumptions; ROLE table as buffer contract; the .pyx analysed as text',
+      'DESIGN.md 3.D, 4/C09')
